@@ -140,3 +140,39 @@ Definition chk_stats (cs : list (N * acase)) (ss : list (N * list sample)) : lis
                    fold_left (fun acc s => add9 acc (sample_stats (c_fun (snd p)) b' s)) l acc
                | _, _ => acc
                end) cs zero9.
+
+(* ------------------------------------------------------------------ *)
+(* the theorems' guard and instances                                   *)
+(* ------------------------------------------------------------------ *)
+(* [programs inside a2a_guard; of those, rewritten (a2a = Ok); instances of a2a_backward
+    checked (normalised program has a value on a sample); instances that FAIL; programs whose
+    a2a output is not in normal form] ++ the ids of the failing programs *)
+Definition guard_case (p : N * acase) (ss : list (N * list sample)) : list N * list N :=
+  let f := c_fun (snd p) in
+  let g := a2a_guard f in
+  match a2a f with
+  | Ok b' =>
+      let nf := normal_form b' in
+      let inst :=
+        if g then
+          match lookupN ss (fst p) with
+          | Some l =>
+              map (fun s => let rho := env_for f (fst s) in
+                            match run chk_ext b' rho with
+                            | Some v => if oval_eqb (run chk_ext (f_body f) rho) (Some v) then 1 else 2
+                            | None => 0
+                            end) l
+          | None => []
+          end
+        else [] in
+      let checked := N.of_nat (List.length (filter (fun k => negb (k =? 0)) inst)) in
+      let failed := N.of_nat (List.length (filter (fun k => k =? 2) inst)) in
+      ([b2n g; b2n g; checked; failed; b2n (negb nf)],
+       if (negb nf) || negb (failed =? 0) then [fst p] else [])
+  | _ => ([b2n g; 0; 0; 0; 0], [])
+  end.
+
+Definition chk_guard (cs : list (N * acase)) (ss : list (N * list sample)) : list N :=
+  let rs := map (fun p => guard_case p ss) cs in
+  fold_left (fun acc r => map (fun q => fst q + snd q) (combine acc (fst r))) rs [0; 0; 0; 0; 0]
+  ++ flat_map snd rs.
